@@ -188,6 +188,7 @@ class Interp:
         env = {}
         for p, a in zip(params, args):
             env[p] = a
+        self.fi = fi
         self.returns = []
         self.raises = 0
         self._block(fi.node.body, env)
@@ -408,13 +409,36 @@ class Interp:
         return [(True, t)] * (t is not None) + [(False, f)] * (f is not None)
 
     # ----------------------------------------------------------- expressions
+    def _module_const(self, name):
+        """a name that is not a local: a module-level constant of the function's module (a string or
+        int literal bound exactly once at module level and never rebound through `global`)"""
+        fi = getattr(self, 'fi', None)
+        mi = self.ctx.m.modules.get(fi.module) if fi is not None else None
+        if mi is None or name not in mi.consts:
+            return TOP
+        nbind = 0
+        for x in ast.walk(mi.tree):
+            if isinstance(x, ast.Name) and x.id == name and isinstance(x.ctx, (ast.Store, ast.Del)):
+                nbind += 1
+            elif isinstance(x, ast.Global) and name in x.names:
+                return TOP
+        if nbind != 1:
+            return TOP
+        try:
+            v = fold(mi.consts[name], self.ctx.m, mi)
+        except NotConst:
+            return TOP
+        return v if isinstance(v, (str, int)) and not isinstance(v, bool) else TOP
+
     def _eval(self, n, env):
         if isinstance(n, ast.Constant):
             if isinstance(n.value, str):
                 return n.value
             return n.value
         if isinstance(n, ast.Name):
-            return env.get(n.id, TOP)
+            if n.id in env:
+                return env[n.id]
+            return self._module_const(n.id)
         if isinstance(n, ast.Tuple):
             return T([self._absstr(self._eval(e, env)) for e in n.elts])
         if isinstance(n, ast.List):
